@@ -98,19 +98,21 @@ class Effects:
         self.analysed: list[str] = []
         self.exact_helpers: dict[str, bool] = {}
         self.primitive_sites: list[dict] = []
+        self.used_a1 = False
 
     # ------------------------------------------------------------ summaries
-    def escapes(self, fi: FuncInfo) -> list[Esc]:
-        q = fi.qualname
+    def escapes(self, fi: FuncInfo, init_facts: frozenset = frozenset()) -> list[Esc]:
+        q = fi.qualname if not init_facts else fi.qualname + "|" + ",".join(sorted(init_facts))
         if q in self.summaries:
             return self.summaries[q]
         if q in self.in_progress:
             return []  # recursion: fixed point reached by the outer iteration
         self.in_progress.add(q)
-        if q not in self.analysed:
-            self.analysed.append(q)
+        if fi.qualname not in self.analysed:
+            self.analysed.append(fi.qualname)
         body = fi.node.body if isinstance(fi.node.body, list) else [ast.Expr(value=fi.node.body)]
         st = State()
+        st.facts = set(init_facts)
         res = self.block(body, fi, st)
         self.in_progress.discard(q)
         out = _dedup(res)
@@ -687,7 +689,7 @@ class Effects:
             for t in targets:
                 if t.name == "__init__" and t.cls is not None and t.cls.name in EXC_CTORS:
                     continue
-                out.extend(x.via(t.short) for x in self.escapes(t))
+                out.extend(x.via(t.short) for x in self.escapes(t, self._arg_facts(c, t, fi, st)))
             if any(t.cls is not None and t.cls.name == "Unserializer" for t in targets):
                 # a loader/helper may have changed the stack arbitrarily
                 if not all(self._stack_neutral(t) for t in targets):
@@ -696,6 +698,22 @@ class Effects:
         if self.strict:
             self.unclassified.append((fi, c))
         return out
+
+    def _arg_facts(self, c: ast.Call, t: FuncInfo, fi: FuncInfo, st: State) -> frozenset:
+        """integer bounds of the actual arguments, expressed on the callee's formals"""
+        formals = [a.arg for a in t.node.args.args]
+        if formals and formals[0] == "self":
+            formals = formals[1:]
+        out = set()
+        for i, a in enumerate(c.args):
+            if i >= len(formals) or isinstance(a, ast.Starred):
+                break
+            lo, hi = self.bounds(a, fi, st)
+            if lo is not None:
+                out.add(f"{formals[i]}>={lo}")
+            if hi is not None:
+                out.add(f"{formals[i]}<={hi}")
+        return frozenset(out)
 
     def _stack_neutral(self, t: FuncInfo) -> bool:
         return not any(isinstance(n, ast.Attribute) and n.attr == "stack" for n in ast.walk(t.node))
@@ -781,6 +799,11 @@ class Effects:
                     pass
         if isinstance(a, ast.Call) and isinstance(a.func, ast.Name) and a.func.id == "len":
             lo = 0 if lo is None else max(lo, 0)
+        if isinstance(a, ast.Attribute) and a.attr == "id" and self.repo.type_of(a.value, fi) == "Channel":
+            # A1: channel ids are counter-derived or read as int4 from the wire
+            self.used_a1 = True
+            lo = -2**31 if lo is None else lo
+            hi = 2**31 - 1 if hi is None else hi
         return (lo, hi)
 
     # --------------------------------------------------------------- guards
